@@ -157,6 +157,25 @@ type egressCase struct {
 	Codes  []int                  `json:"codes"` // status of response k (k < len(chain)-1), default 307
 	DNS    map[string][]dnsAnswer `json:"dns"`   // host -> answers for successive lookups (last repeats)
 	Mode   string                 `json:"mode"`  // deliver | check | push
+	Sign   string                 `json:"sign"`  // "" | expired | future | missing-ref | blank-headers: outbound signing that cannot succeed
+}
+
+// a signing configuration that fails at delivery time (C16: a denied delivery is policy_denied whatever else is wrong with it)
+func failingSign(kind string) *dispatcher.HMACSigningConfig {
+	now := time.Now()
+	switch kind {
+	case "expired":
+		return &dispatcher.HMACSigningConfig{SignatureHeader: "X-Sig", TimestampHeader: "X-Ts", SecretVersions: []dispatcher.HMACSigningSecretVersion{
+			{ID: "v1", Ref: "raw:s3cret", ValidFrom: now.Add(-48 * time.Hour), ValidUntil: now.Add(-24 * time.Hour), HasUntil: true}}}
+	case "future":
+		return &dispatcher.HMACSigningConfig{SignatureHeader: "X-Sig", TimestampHeader: "X-Ts", SecretVersions: []dispatcher.HMACSigningSecretVersion{
+			{ID: "v1", Ref: "raw:s3cret", ValidFrom: now.Add(24 * time.Hour)}}}
+	case "missing-ref":
+		return &dispatcher.HMACSigningConfig{SignatureHeader: "X-Sig", TimestampHeader: "X-Ts", SecretRef: "env:VERIF_NO_SUCH_SECRET_C16"}
+	case "blank-headers":
+		return &dispatcher.HMACSigningConfig{SignatureHeader: " ", TimestampHeader: "", SecretRef: "raw:s3cret"}
+	}
+	return nil
 }
 
 type hopOut struct {
@@ -398,7 +417,7 @@ func runPush(c egressCase, pol dispatcher.EgressPolicy, res *fakeResolver, rt *s
 		Store:     store,
 		Deliverer: d,
 		Routes: []dispatcher.RouteConfig{{Route: "/hooks", Concurrency: 1, Targets: []dispatcher.TargetConfig{{
-			URL: c.Chain[0], Timeout: 2 * time.Second,
+			URL: c.Chain[0], Timeout: 2 * time.Second, SignHMAC: failingSign(c.Sign),
 			Retry: dispatcher.RetryConfig{Type: "exponential", Max: 2, Base: time.Millisecond, Cap: 2 * time.Millisecond},
 		}}}},
 		MaxWait: 20 * time.Millisecond,
@@ -488,7 +507,7 @@ func egressRun(in []byte) (any, error) {
 			d.Resolver = res
 			ctx, cancel := context.WithTimeout(context.Background(), 5*time.Second)
 			r := d.Deliver(ctx, dispatcher.Delivery{ID: "d1", Target: c.Chain[0], URL: c.Chain[0], Method: http.MethodPost,
-				Header: http.Header{"Content-Type": []string{"application/json"}}, Body: []byte(`{"k":1}`)})
+				Header: http.Header{"Content-Type": []string{"application/json"}}, Body: []byte(`{"k":1}`), Sign: failingSign(c.Sign)})
 			cancel()
 			o.Status = r.StatusCode
 			o.ErrClass, o.ErrText = classifyErr(r.Err)
